@@ -46,7 +46,8 @@ def TransposeTable : Prop :=
   Gen.Avx2Stripe.stores.length = 32 ∧
   (∀ p, p < 1024 → cellSrc (p / 32) (p % 32) = some (p / 32, some (p % 32, p / 32))) ∧
   (∀ j, j < 32 → loadMul j = some j) ∧
-  Gen.Avx2Stripe.loopStrict = false ∧ Gen.Avx2Stripe.srcInc = 32 ∧ Gen.Avx2Stripe.outInc = 32
+  Gen.Avx2Stripe.loopStrict = false ∧ Gen.Avx2Stripe.srcInc = 32 ∧ Gen.Avx2Stripe.outInc = 32 ∧
+  Gen.Avx2Stripe.srcGuard = some 31
 
 instance : Decidable TransposeTable := by unfold TransposeTable; infer_instance
 
